@@ -83,7 +83,11 @@ def summarise_pos(term):
     if term == ("param", "args"):
         return [("all", "raw")]
     if term[0] == "call" and T.refname(term[1]) == "builtins.tuple" and len(term[2]) == 1:
-        term = ("tuple", (("star", term[2][0]),))
+        inner = term[2][0]
+        if inner[0] in ("list", "tuple") and inner[1] and all(x[0] == "star" for x in inner[1]):
+            term = ("tuple", inner[1])  # tuple([*a, *b]) is (*a, *b)
+        else:
+            term = ("tuple", (("star", inner),))
     if term[0] != "tuple":
         return None
     segs = []
